@@ -410,6 +410,18 @@ func (tc *tcase) spokfile(root string) string {
 			continue
 		}
 		t := s.t
+		deps := ""
+		if t.name == "clean" && tc.has(cleanVia) {
+			// the user's clean task is an AGGREGATE: an empty body, its work done by a task it depends on (the spec handed to
+			// the model shows the commands on `clean` itself: for what `--clean` does the two are the same)
+			b.WriteString("\ntask cleanparts() {\n")
+			for _, c := range t.cmds {
+				b.WriteString("    " + c.source() + "\n")
+			}
+			b.WriteString("}\n")
+			t.cmds = nil
+			deps = "cleanparts"
+		}
 		var outs []string
 		for _, f := range t.files {
 			outs = append(outs, "\""+f+"\"")
@@ -418,7 +430,7 @@ func (tc *tcase) spokfile(root string) string {
 		for _, g := range t.globs {
 			outs = append(outs, "\""+g.pat+"\"")
 		}
-		fmt.Fprintf(&b, "\ntask %s()", t.name)
+		fmt.Fprintf(&b, "\ntask %s(%s)", t.name, deps)
 		if len(outs) == 1 {
 			fmt.Fprintf(&b, " -> %s", outs[0])
 		} else if len(outs) > 1 {
@@ -512,12 +524,21 @@ func snapshot(root string) (string, string) {
 		switch {
 		case d.IsDir():
 			es = append(es, ent{"d", rel, "-"})
+			// the permission bits of a directory: a pseudo entry below it (it goes when the directory goes, and must
+			// not change otherwise: "modifies nothing else")
+			if info, ierr := d.Info(); ierr == nil {
+				es = append(es, ent{"m", rel + "/\x01mode", strconv.FormatUint(uint64(info.Mode().Perm()), 8)})
+			}
 		case d.Type().IsRegular():
 			data, rerr := os.ReadFile(p)
 			if rerr != nil {
 				es = append(es, ent{"e", rel, "-"})
 			} else {
-				es = append(es, ent{"f", rel, hashOf(data)})
+				h := hashOf(data)
+				if info, ierr := d.Info(); ierr == nil {
+					h += "m" + strconv.FormatUint(uint64(info.Mode().Perm()), 8) // content and permission bits
+				}
+				es = append(es, ent{"f", rel, h})
 			}
 		case d.Type()&fs.ModeSymlink != 0:
 			// a symbolic link is an entry of its own (a file whose content is the target string); what it points to
@@ -606,6 +627,18 @@ const cleanMarker = "CLEANTASKRAN"
 // leads into the sandbox through a symbolic link lying outside it
 const viaLink = "VHVIALINK"
 
+// cleanVia: with an ambient variable of this name the spokfile is written with the user's clean task as an aggregate
+const cleanVia = "VHCLEANVIA"
+
+func (tc *tcase) has(marker string) bool {
+	for _, p := range tc.amb {
+		if p[0] == marker {
+			return true
+		}
+	}
+	return false
+}
+
 func workC12(tc *tcase) string {
 	root := tc.materialise()
 	if root == "" {
@@ -677,8 +710,12 @@ func workC13(tc *tcase) string {
 	} else {
 		var w []string
 		lines := strings.Split(rv.stdout, "\n")
-		cnt := 0
 		started := false
+		type row struct {
+			name, val string
+			bad       bool
+		}
+		var rows []row
 		for _, ln := range lines {
 			if !started {
 				if strings.HasPrefix(ln, "Name\tValue") {
@@ -690,12 +727,23 @@ func workC13(tc *tcase) string {
 				continue
 			}
 			m := varLine.FindStringSubmatch(ln)
-			if m == nil {
-				w = append(w, "BADLINE", hx(ln))
-			} else {
-				w = append(w, hx(m[1]), hx(unroot(m[2])))
+			switch {
+			case m != nil:
+				rows = append(rows, row{name: m[1], val: m[2]})
+			case len(rows) > 0 && !rows[len(rows)-1].bad:
+				// a value that has a line break in it (an exec whose output has several lines) goes on in the next line
+				rows[len(rows)-1].val += "\n" + ln
+			default:
+				rows = append(rows, row{val: ln, bad: true})
 			}
-			cnt++
+		}
+		cnt := len(rows)
+		for _, r := range rows {
+			if r.bad {
+				w = append(w, "BADLINE", hx(r.val))
+			} else {
+				w = append(w, hx(r.name), hx(unroot(r.val)))
+			}
 		}
 		vars = strings.Join(append([]string{strconv.Itoa(cnt)}, w...), " ")
 	}
@@ -1099,6 +1147,9 @@ func (g *gen) c12Random() *tcase {
 		if g.chance(0.5) {
 			t.files = []string{g.pick(litPool)}
 		}
+		if g.chance(0.3) {
+			tc.amb = append(tc.amb, [2]string{cleanVia, "1"})
+		}
 		pos := g.rng.Intn(len(tc.stmts) + 1)
 		// a task may only reference... outputs are looked up at clean time, position is free
 		tc.stmts = append(tc.stmts[:pos], append([]stmt{{isTask: true, t: t}}, tc.stmts[pos:]...)...)
@@ -1191,6 +1242,11 @@ func c12Singles() []*tcase {
 		tc := mk(task{files: []string{l}})
 		tc.stmts = append(tc.stmts, stmt{isTask: true, t: task{name: "clean", cmds: []command{echoCmd(cleanMarker)}}})
 		out = append(out, tc)
+		// … and with that clean task an aggregate with an empty body
+		tcv := mk(task{files: []string{l}})
+		tcv.stmts = append(tcv.stmts, stmt{isTask: true, t: task{name: "clean", cmds: []command{echoCmd(cleanMarker)}}})
+		tcv.amb = append(tcv.amb, [2]string{cleanVia, "1"})
+		out = append(out, tcv)
 	}
 	for _, l := range notdirPool {
 		tc := mk(task{files: []string{l, "top.o"}})
@@ -1337,6 +1393,8 @@ var execPool = []execSample{
 	{"/usr/bin/head -c 70000 /dev/zero | /usr/bin/tr '\\0' y", strings.Repeat("y", 70000), 0},
 	// a pipeline is as good as its LAST stage (no pipefail): the value is what it printed
 	{"false | echo hello", "hello\n", 0},
+	// a carriage return + line feed INSIDE the output belongs to the value like any other two bytes
+	{"printf 'one\\r\\ntwo\\n'", "one\r\ntwo\n", 0},
 	{"exit 3", "", 3},
 	{"false", "", 1},
 	{"echo partial; exit 2", "partial\n", 2},
